@@ -252,8 +252,11 @@ def _direct_use(run, cm):
     try:
         while True:
             co.send(None)
-    except BaseException:  # noqa: B036 - whatever the scripted manager of call 0 does when used directly
-        pass
+    except StopIteration as stop:
+        res = ["ret", stop.value]
+    except BaseException as exc:  # noqa: B036 - whatever the scripted manager of call 0 does when used directly
+        res = ["exc", run.name(exc)]
+    run.direct = {"log": [list(e) for e in run.log], "res": res}
     run.log, run.cur = saved, cur
 
 
@@ -309,7 +312,7 @@ def _execute(case, lib, only=None):
             co.close()
         except BaseException:  # noqa: B036 - cleanup of unfinished calls only
             pass
-    return {"outs": outs, "log": log, "ninst": run.ninst, "done": done}
+    return {"outs": outs, "log": log, "ninst": run.ninst, "done": done, "direct": getattr(run, "direct", None)}
 
 
 def _proj(log, c):
@@ -434,6 +437,18 @@ def judge(case, obs, model):
             issues.append(Issue("A", model))
             return issues
         mi, ms = model["impl"], model["spec"]
+        if case.get("direct_at") is not None and impl.get("direct") is not None:
+            # the direct use itself: its own enter/exit events and result, on generator object 0 only
+            real = [[e[2]] + ([e[3]] if e[2] == "exit" else []) for e in impl["direct"]["log"]]
+            mdl = [[e[0]] + ([e[1]] if e[0] == "exit" else []) for e in model["direct_log"] if e[0] in ("enter", "entered", "exit")]
+            fin = [e for e in model["direct_log"] if e[0] == "finish"]
+            mres = None
+            if fin:
+                r = fin[0][1]
+                mres = ["ret", None] if r[0] in ("ret", "none") else ["exc", r[1][:2] if r[1][0] == "lib" else r[1]]
+            insts = {e[1] for e in impl["direct"]["log"]}
+            if _strip_rt(real) != _strip_rt(mdl) or _strip_rt(impl["direct"]["res"]) != _strip_rt(mres) or (case["gb"] and insts - {0}):
+                issues.append(Issue("A", {"direct-use": {"asyncstdlib": [real, impl["direct"]["res"], sorted(insts)], "model": [mdl, mres]}}))
         mlog = [_strip_rt([e[0], e[1] if e[2] in ("enter", "entered", "exit") else None] + e[2:])
                 for e in mi["log"] if e[2] != "exited"]
         mouts = _strip_rt(mi["outs"])
@@ -453,6 +468,9 @@ def judge(case, obs, model):
 def model_request(case):
     if case.get("kind") == "gensem":
         return {"m": "decorator", "mode": "gensem", "prog": case["prog"], "ops": case["ops"]}
+    if case.get("direct_at") is not None:
+        # Machines/DecoratorDirect.lean: the same run with the manager object itself entered directly before op `direct_at`
+        return {"m": "decoratordirect", "gb": case["gb"], "calls": case["calls"], "ops": case["ops"], "direct_at": case["direct_at"]}
     return {"m": "decorator", "mode": "run", "gb": case["gb"], "calls": case["calls"], "ops": case["ops"]}
 
 
